@@ -513,6 +513,8 @@ def to_model(data_file: typing.IO, _config = None, progress_callback=lambda _: N
 
       current_p = model.P(doc)
 
+      subtitle_text = ""
+
       current_p.set_begin(start_time)
 
       current_p.set_end(end_time)
